@@ -112,10 +112,29 @@ package discovery
 //@        && arg(1).(serviceRecord).LastLamportTimestamp == timestamp && arg(1).(serviceRecord).Seed == seed
 
 // Inside one SQL transaction: take the timestamp, delete the subject's previous entries, then store.
+// What is stored comes from a server's response BEFORE it is verified: only a JWT presentation has the JWT
+// the expiration is taken from (go-did: JWT() is nil for every other format; the summary of JWT() in
+// contracts/external/stdlib.spec says: non-nil for the JWT format).
+//@ func (*store.CredentialStore).Store
+//@   trusted
+//@   benign
+//@   ensures isNilIface(result.1) ==> result.0 != nil
+//@ func (store.CredentialStore).Store
+//@   trusted
+//@   benign
+//@   ensures isNilIface(result.1) ==> result.0 != nil
+//@ func storePresentation
+//@   prop C16 C19
+//@   safety
+//@   assume-benign
+//@   requires presentation.ID != nil
+//@   ensures [only-jwt-presentations-are-stored] isNilIface(result.1) ==> presentation.Format() == vc.JWTPresentationProofFormat && result.0 != nil
+//@        && isNilIface(ret(call credential.PresentationSigner #1).1) && same(arg(call credential.PresentationSigner #1, 0), presentation)
+//@   ensures [another-format-is-refused-before-anything-is-read-from-it] presentation.Format() != vc.JWTPresentationProofFormat ==> !isNilIface(result.1) && !did(call credential.PresentationSigner #1)
 //@ func (*sqlStore).add$1
 //@   prop C16
 //@   safety
-//@   requires credentialSubjectID != nil
+//@   requires credentialSubjectID != nil && presentation.ID != nil
 //@   call storePresentation #1 requires [timestamp-taken-and-previous-entries-of-the-subject-deleted-in-this-tx]
 //@        arg(0) == tx && arg(1) == serviceID && same(arg(3), presentation)
 //@        && did(call (*gorm.DB).Delete #1) && arg(call (*gorm.DB).Delete #1, 0) == tx && isNilIface(ret(call (*gorm.DB).Delete #1).Error)
@@ -129,6 +148,8 @@ package discovery
 //@   prop C16
 //@   safety
 //@   assume-benign
+// a presentation without id (a JWT without jti) cannot be stored: its callers refuse it first (finding #15)
+//@   requires [only-presentations-with-an-id-are-stored] presentation.ID != nil
 // NOT provable here: "a record is returned whenever the error is nil". `return newPresentation, s.db.Transaction(..)`
 // reads a variable the closure assigns; the Go spec leaves the order of that read relative to the call
 // unspecified, go/ssa (and therefore govc) reads it first, the gc compiler reads it afterwards. Register's
